@@ -90,9 +90,11 @@ func (r Rec) String() string {
 }
 
 type parked struct {
-	site string
-	ch   chan struct{}
-	seq  int
+	site  string
+	ch    chan int // closed = go on; value 2 = report your goroutine id and keep waiting
+	seq   int
+	epoch int64  // driver decision count at arrival
+	goid  uint64 // filled on request (ties only)
 }
 
 type event struct {
@@ -148,7 +150,8 @@ type World struct {
 	counters map[string]int
 	chanSeq  map[string]int
 	hist     []Rec
-	inDriver atomic.Bool
+	inDriver atomic.Bool // the driver goroutine is running (set by the driver only)
+	driverID uint64      // its goroutine id
 	draining atomic.Bool
 
 	Steps     int64 // scheduler decisions taken
@@ -159,6 +162,8 @@ type World struct {
 	lastSite  string
 	StepCapHit bool
 	Stalls     int64
+	TieBreaks  int64 // goroutine-id requests (same-site arrivals within one decision)
+	epoch      int64
 	Overlaps   int64 // events run while goroutines were parked
 	StalledFor time.Duration
 	stalled    bool
@@ -183,6 +188,7 @@ func NewWorld(seed uint64, cfg SchedCfg) *World {
 		w.Cfg.MaxSteps = 400000
 	}
 	w.Net = newNet(w)
+	w.driverID = Goid()
 	w.inDriver.Store(true)
 	cur.Store(w)
 	return w
@@ -282,7 +288,21 @@ func (w *World) siteEnabled(site string) bool {
 // Yield is inserted before every statement of the instrumented packages.
 func Yield(site string) {
 	w := cur.Load()
-	if w == nil || w.inDriver.Load() || w.draining.Load() || !w.siteEnabled(site) {
+	if w == nil || w.draining.Load() || !w.siteEnabled(site) || w.isDriver() {
+		return
+	}
+	w.park(site)
+}
+
+// Resume is the always-on yield of every point at which a goroutine becomes runnable again (its
+// first statement, after a blocking receive/select/lock/read/wait, a timer callback's start). A
+// goroutine that wakes up does nothing before the driver lets it: at most one goroutine of the
+// simulated world does real work at a time, so the order in which the Go runtime happens to run
+// goroutines that are runnable together (and any preemption of them under machine load) cannot
+// influence the execution. Independent of the level-2 density.
+func Resume(site string) {
+	w := cur.Load()
+	if w == nil || w.draining.Load() || w.isDriver() {
 		return
 	}
 	w.park(site)
@@ -291,26 +311,76 @@ func Yield(site string) {
 // YieldAlways parks whenever level-2 scheduling is on at all (used by seams: timer armed, lock handoff).
 func YieldAlways(site string) {
 	w := cur.Load()
-	if w == nil || w.inDriver.Load() || w.draining.Load() {
+	if w == nil || w.draining.Load() {
 		return
 	}
 	if w.Cfg.Density <= 0 && w.Cfg.FocusDensity <= 0 {
+		return
+	}
+	if w.isDriver() {
 		return
 	}
 	w.park(site)
 }
 
 func (w *World) park(site string) {
-	p := &parked{site: site, ch: make(chan struct{})}
+	p := &parked{site: site, ch: make(chan int)}
 	w.mu.Lock()
 	w.pseq++
 	p.seq = w.pseq
+	p.epoch = w.epoch
 	w.parked = append(w.parked, p)
 	w.Parks++
 	w.SitesHit[site]++
 	w.mu.Unlock()
 	w.poke()
-	<-p.ch
+	for {
+		v, ok := <-p.ch
+		if !ok {
+			return
+		}
+		if v == 2 {
+			// tie-break request (see breakTies): the goroutine id reflects creation order
+			id := Goid()
+			w.mu.Lock()
+			p.goid = id
+			w.mu.Unlock()
+		}
+	}
+}
+
+// breakTies: goroutines that parked at the same site since the same driver decision arrived in
+// an order the Go runtime chose (timers due at one instant, several waiters of one channel or
+// lock, a goroutine and the one it has just woken up). Their order in the choice list must not
+// depend on it: they are ordered by goroutine id — creation order, which the schedule itself
+// determines — obtained on request, for ties only. Returns true if requests were sent (the
+// caller waits for quiescence again).
+func (w *World) breakTies() bool {
+	// caller holds w.mu
+	type key struct {
+		site  string
+		epoch int64
+	}
+	n := map[key]int{}
+	for _, p := range w.parked {
+		n[key{p.site, p.epoch}]++
+	}
+	var ask []*parked
+	for _, p := range w.parked {
+		if n[key{p.site, p.epoch}] > 1 && p.goid == 0 {
+			ask = append(ask, p)
+		}
+	}
+	if len(ask) == 0 {
+		return false
+	}
+	w.TieBreaks += int64(len(ask))
+	w.mu.Unlock()
+	for _, p := range ask {
+		p.ch <- 2
+	}
+	w.mu.Lock()
+	return true
 }
 
 func (w *World) poke() {
@@ -341,6 +411,7 @@ func (w *World) Run(until time.Duration) {
 		synctest.Wait()
 		w.inDriver.Store(true)
 		w.mu.Lock()
+		w.epoch++ // everything that parks before the next quiescent point is one batch (see breakTies)
 		if len(w.parked) > 0 && w.Cfg.StallProb > 0 && !w.stalled && w.rng.Float() < w.Cfg.StallProb {
 			// stall (slow node): leave everything parked and let virtual time reach the next timer,
 			// so that a timer can fire while another goroutine is half-way through an operation.
@@ -355,6 +426,9 @@ func (w *World) Run(until time.Duration) {
 			if len(w.q) == 0 || w.q[0].at > now {
 				w.Stalls++
 				w.stalled = true
+				if w.TraceOn {
+					w.Trace = append(w.Trace, fmt.Sprintf("%d stall %v parked=%d", now, d, len(w.parked)))
+				}
 				w.mu.Unlock()
 				tm := time.NewTimer(d)
 				w.inDriver.Store(false)
@@ -374,6 +448,9 @@ func (w *World) Run(until time.Duration) {
 			ev := heap.Pop(&w.q).(*event)
 			w.Events++
 			w.Overlaps++
+			if w.TraceOn {
+				w.Trace = append(w.Trace, fmt.Sprintf("%d event-first %s parked=%d", w.Now(), ev.key, len(w.parked)))
+			}
 			w.mu.Unlock()
 			ev.run()
 			continue
@@ -385,15 +462,34 @@ func (w *World) Run(until time.Duration) {
 				w.releaseAll()
 				continue
 			}
+			if w.breakTies() {
+				w.mu.Unlock()
+				continue // let the asked goroutines answer, then decide
+			}
 			sort.SliceStable(w.parked, func(i, j int) bool {
-				if w.parked[i].site != w.parked[j].site {
-					return w.parked[i].site < w.parked[j].site
+				a, b := w.parked[i], w.parked[j]
+				if a.site != b.site {
+					return a.site < b.site
 				}
-				return w.parked[i].seq < w.parked[j].seq
+				if a.epoch == b.epoch && a.goid != 0 && b.goid != 0 {
+					return a.goid < b.goid
+				}
+				return a.seq < b.seq
 			})
 			i := 0
 			if len(w.parked) > 1 {
-				i = w.rng.Intn(len(w.parked))
+				if w.Cfg.Density <= 0 && w.Cfg.FocusDensity <= 0 {
+					// event-level run (no level-2 exploration): goroutines proceed in the order in which
+					// they became runnable — what an unperturbed Go scheduler would do, decided here.
+					// (Also keeps a session's own order independent of what other sessions do: C15.)
+					for j := 1; j < len(w.parked); j++ {
+						if w.parked[j].epoch < w.parked[i].epoch {
+							i = j // the list is sorted by (site, goroutine id / arrival) already
+						}
+					}
+				} else {
+					i = w.rng.Intn(len(w.parked))
+				}
 			}
 			p := w.parked[i]
 			w.parked = append(w.parked[:i], w.parked[i+1:]...)
@@ -418,6 +514,9 @@ func (w *World) Run(until time.Duration) {
 		if len(w.q) > 0 && w.q[0].at <= now {
 			ev := heap.Pop(&w.q).(*event)
 			w.Events++
+			if w.TraceOn {
+				w.Trace = append(w.Trace, fmt.Sprintf("%d event %s", now, ev.key))
+			}
 			w.mu.Unlock()
 			// events run in the driver: they must never call instrumented code (inDriver stays true)
 			ev.run()
@@ -548,7 +647,7 @@ func (m *Mutex) Lock() {
 		if m.held.CompareAndSwap(false, true) {
 			return
 		}
-		if w.inDriver.Load() {
+		if w.isDriver() {
 			// harness code in the driver contending with a parked holder: cannot wait.
 			panic("simrt: driver would block on a cooperative mutex")
 		}
@@ -563,7 +662,7 @@ func (m *Mutex) Lock() {
 		atomic.AddInt32(&w.mutexWaiters, 1)
 		<-wt.ch
 		atomic.AddInt32(&w.mutexWaiters, -1)
-		YieldAlways("simrt:lock-wake")
+		Resume("simrt:lock-wake")
 	}
 }
 
@@ -609,12 +708,13 @@ func (m *RWMutex) wait(w *World) {
 	wt := &waiter{ch: make(chan struct{})}
 	m.waiters = append(m.waiters, wt)
 	m.smu.Unlock()
-	if w.inDriver.Load() {
+	if w.isDriver() {
 		panic("simrt: driver would block on a cooperative rwmutex")
 	}
 	atomic.AddInt32(&w.mutexWaiters, 1)
 	<-wt.ch
 	atomic.AddInt32(&w.mutexWaiters, -1)
+	Resume("simrt:rwlock-wake")
 }
 func (m *RWMutex) wakeAll() {
 	ws := m.waiters
@@ -772,7 +872,7 @@ func (m *Map) Range(f func(k, v any) bool) {
 	keys := m.keys[:len(m.keys):len(m.keys)]
 	m.mu.Unlock()
 	rot := 0
-	if w := cur.Load(); w != nil && len(keys) > 1 && !w.inDriver.Load() {
+	if w := cur.Load(); w != nil && len(keys) > 1 && !w.isDriver() {
 		n := w.Counter("maprange")
 		if w.Keyed("maprange", n) < 0.5 {
 			rot = int(w.KeyedU64("maprot", n) % uint64(len(keys)))
@@ -813,7 +913,7 @@ func (w *World) HarnessJitter(parts ...any) time.Duration {
 const MaxJitter = time.Microsecond
 
 func AfterFunc(d time.Duration, f func()) *time.Timer {
-	t := time.AfterFunc(d+jitter("af"), f)
+	t := time.AfterFunc(d+jitter("af"), func() { Resume("simrt:timer-fired"); f() })
 	YieldAlways("simrt:timer-armed")
 	return t
 }
@@ -900,4 +1000,11 @@ func Goid() uint64 {
 		id = id*10 + uint64(c-'0')
 	}
 	return id
+}
+
+// isDriver: is the caller the driver goroutine? The flag alone is not enough: while it is set,
+// another goroutine (just spawned, or just woken up by an event) can get the processor when the
+// Go runtime preempts the driver, and its yields must not be skipped.
+func (w *World) isDriver() bool {
+	return w.inDriver.Load() && Goid() == w.driverID
 }
